@@ -228,11 +228,12 @@ Definition bact (cfg : bconfig) (a : baction) (s : bstate) : bstate :=
 Definition brun (cfg : bconfig) (l : list baction) (s : bstate) : bstate :=
   fold_left (fun s a => bact cfg a s) l s.
 
-(** A side whose old connector is locked and holds [held]; [ev0] are events still in the old
+(** A side whose old connector holds [held] (when locked); [f0] is the message-queue filter an
+    earlier send_command / send_message left on the device; [ev0] are events still in the old
     connector's queue; [sp] is what the device emits from then on. *)
-Definition sinit (lockd : bool) (held ev0 : list msg) (sp : list chunk) : side :=
+Definition sinit (lockd : bool) (f0 : option N) (held ev0 : list msg) (sp : list chunk) : side :=
   {| d_wire := []; d_spont := sp; d_rpc := BR_Read; d_rbuf := []; d_conn := false; d_wready := false;
-     d_filt := None; d_outq := [];
+     d_filt := f0; d_outq := [];
      d_ev_o := ev0; d_cpc := CC_Get; d_locked := lockd; d_lk := false; d_lq := held;
      d_ev_w := []; d_xpc := X_Get; d_peer := [];
      d_deliv_o := []; d_lost := []; d_deliv_w := [] |}.
@@ -241,7 +242,7 @@ Definition binit2 (si so : side) : bstate := {| b_in := si; b_out := so; b_apc :
 
 (** One-direction scenario (the output side idle and unlocked). *)
 Definition binit (held ev0 : list msg) (sp : list chunk) : bstate :=
-  binit2 (sinit true held ev0 sp) (sinit false [] [] []).
+  binit2 (sinit true None held ev0 sp) (sinit false None [] [] []).
 
 Definition baction_of (n : N) : baction :=
   match n with
@@ -268,9 +269,9 @@ Definition sobs_eqb (a b : sobs) : bool :=
   && list_eqb msg_eqb (so_ev_w a) (so_ev_w b) && Bool.eqb (so_locked a) (so_locked b)
   && Bool.eqb (so_dead a) (so_dead b).
 
-(** side description: (locked?, held, pending events, spontaneous chunks) *)
-Definition sdesc := (bool * list msg * list msg * list chunk)%type.
-Definition side_of (x : sdesc) : side := let '(l, h, e, sp) := x in sinit l h e sp.
+(** side description: (locked?, stale filter, held, pending events, spontaneous chunks) *)
+Definition sdesc := (bool * option N * list msg * list msg * list chunk)%type.
+Definition side_of (x : sdesc) : side := let '(l, f, h, e, sp) := x in sinit l f h e sp.
 
 Definition bcase := (bool * sdesc * sdesc * list N * (sobs * sobs * bool))%type.
 
